@@ -47,6 +47,9 @@ def cases(tier, rng):
         for L in LS:
             for ml, bl in ((600, 100), (600, 4096), (600, 4097), (2049, 4096), (2049, 8 * 512 * 3 + 5), (1000, 3), (5000, 8 * 2048), (5000, 8 * 2048 + 1), (9000, 8 * 8192 + 3)):
                 yield {'k': 'md6', 'd': d, 'L': L, 'kl': [0, 3][ml % 2], 'ml': ml, 'r': 6, 'bl': bl}
+    for nodes in (7, 11, 13, 14, 15, 19, 21):          # numbers of level-1 nodes that are neither small nor a power of four
+        for L in (64, 1, 2):
+            yield {'k': 'md6', 'd': 256, 'L': L, 'kl': 0, 'ml': nodes * 512 - [0, 1, 511][nodes % 3], 'r': 1, 'bl': None}
     for r in (255, 256, 300, 1000):
         for L in (64, 0, 1):
             yield {'k': 'md6', 'd': 256, 'L': L, 'kl': 0, 'ml': [3, 600][L % 2], 'r': r, 'bl': None}
